@@ -95,7 +95,11 @@ def code_reading(s):
     except Exception:
         return None
     d = {k: u.dim[k] for k in ("space", "time", "quantity")}
-    return (d, log_si_factor(u.sys, u.dim))
+    try:
+        return (d, log_si_factor(u.sys, u.dim))
+    except KeyError:
+        # the text was ACCEPTED with a unit symbol that is not in the conversion table: a reading no reference reading equals
+        return (d, float("nan"))
 
 
 def same_reading(s):
